@@ -174,8 +174,10 @@ static inline void run_batch_reader(carquet_reader_t* r, const Table& t, const B
     int64_t total = 0; for (auto& rg : t.rgs) total += rg.rows;
     int64_t delivered = 0;
     int errors = 0; bool resync = false;
+    const bool hold_batches = error_seen == nullptr;     // fault-free runs: each batch is kept until the next one has been fetched
+    carquet_row_batch_t* prev = nullptr; int64_t prev_rows = 0, prev_rowpos = 0; std::vector<size_t> prev_vpos; size_t prev_g = 0;
     // checks one delivered batch against the rows [rp, rp+nrows) of row group g; vp = dense value positions of the projected columns at rp
-    auto verify = [&](carquet_row_batch_t* b, int64_t nrows, int64_t rp, std::vector<size_t>& vp, bool record) {
+    auto verify = [&](carquet_row_batch_t* b, int64_t nrows, int64_t rp, std::vector<size_t>& vp, bool record, size_t g) {
         for (size_t ci = 0; ci < cfg.cols.size(); ci++) {
             const Col& c = t.cols[(size_t)cfg.cols[ci]]; const Chunk& want = t.rgs[g].cols[(size_t)cfg.cols[ci]];
             const void* data = nullptr; const uint8_t* bitmap = nullptr; int64_t nv = -1;
@@ -256,9 +258,17 @@ static inline void run_batch_reader(carquet_reader_t* r, const Table& t, const B
             }
         }
         SIM_CHECK(nrows >= 1 && nrows <= cfg.batch_size && nrows <= t.rgs[g].rows - rowpos, "batch.num_rows", "%s: batch of %lld rows (batch_size %d, %lld rows left in row group)", where, (long long)nrows, cfg.batch_size, (long long)(t.rgs[g].rows - rowpos));
-        verify(b, nrows, rowpos, vpos, true);
+        std::vector<size_t> vpos_at = vpos;
+        verify(b, nrows, rowpos, vpos, true, g);
+        // "pointers remain valid until the batch is freed": the previous batch is still held while this one was fetched - look at it again
+        if (prev) { std::vector<size_t> pv = prev_vpos; verify(prev, prev_rows, prev_rowpos, pv, false, prev_g); cq::row_batch_free(prev); prev = nullptr; SIM_COUNT("probe.batch_reread_after_next_batch"); }
+        if (hold_batches) { prev = b; prev_rows = nrows; prev_rowpos = rowpos; prev_vpos = vpos_at; prev_g = g; }
         rowpos += nrows; delivered += nrows;
-        cq::row_batch_free(b);
+        if (!hold_batches) cq::row_batch_free(b);
+    }
+    if (prev) {
+        // ... and once more after the end of data was reported
+        std::vector<size_t> pv = prev_vpos; verify(prev, prev_rows, prev_rowpos, pv, false, prev_g); cq::row_batch_free(prev); prev = nullptr;
     }
     if (errors) { cq::batch_reader_free(br); return; }
     SIM_CHECK(delivered == total, "batch.total_rows", "%s: batch reader delivered %lld rows, file has %lld", where, (long long)delivered, (long long)total);
